@@ -88,6 +88,36 @@ def ProperPrefix (a b : Path) : Prop := a.isPrefixOf b = true ∧ a.length < b.l
 
 instance (a b : Path) : Decidable (ProperPrefix a b) := by unfold ProperPrefix; infer_instance
 
+theorem runnable_tmp (cfg : Cfg) (hs : runnable cfg = true) (e : Path × Mount) (he : e ∈ cfg.mounts)
+    (hk : e.2.kind = "tmp") : e.1 = cfg.ctrOut := by
+  unfold runnable at hs
+  rw [List.all_eq_true] at hs
+  have := hs e he
+  simp only [Bool.and_eq_true, Bool.or_eq_true, decide_eq_true_eq, Bool.not_eq_true', ne_eq] at this
+  rcases this.1 with h | h
+  · exact absurd hk h
+  · exact h
+
+theorem runnable_writable (cfg : Cfg) (hs : runnable cfg = true) (e : Path × Mount) (he : e ∈ cfg.mounts) :
+    ¬ (e.2.kind = "collection" ∧ e.2.writable = true) := by
+  unfold runnable at hs
+  rw [List.all_eq_true] at hs
+  have := hs e he
+  simp only [Bool.and_eq_true, Bool.not_eq_true', Bool.and_eq_false_iff, decide_eq_false_iff_not] at this
+  intro ⟨h1, h2⟩
+  rcases this.2 with h | h
+  · exact h h1
+  · rw [h2] at h; cases h
+
+theorem runnable_of_supported (cfg : Cfg) (hs : supported cfg = true) : runnable cfg = true := by
+  unfold supported at hs
+  unfold runnable
+  rw [List.all_eq_true] at hs ⊢
+  intro e he
+  have := hs e he
+  simp only [Bool.and_eq_true] at this ⊢
+  exact this.1
+
 theorem supported_tmp (cfg : Cfg) (hs : supported cfg = true) (e : Path × Mount) (he : e ∈ cfg.mounts)
     (hk : e.2.kind = "tmp") : e.1 = cfg.ctrOut := by
   unfold supported at hs
